@@ -137,4 +137,220 @@ theorem denoteList_sound (fs : FS) (c : WalkCfg) (fuel : Nat) :
     obtain ⟨o, ho, hseg, hd, rfl⟩ := mem_innerSeg hx
     exact Denotes.inner hs' ho hseg hd (ih _ v hv)
 
+/-! ### completeness of the executable specification -/
+
+theorem belowList_mono (fs : FS) (c : WalkCfg) (long : Bool) :
+    ∀ (f f' : Nat) (d x : Dir), f ≤ f' → x ∈ belowList fs c long f d → x ∈ belowList fs c long f' d := by
+  intro f
+  induction f with
+  | zero =>
+    intro f' d x _ h
+    simp [belowList] at h; subst h; exact belowList_self ..
+  | succ f ih =>
+    intro f' d x hle h
+    obtain ⟨g, rfl⟩ : ∃ g, f' = g + 1 := ⟨f' - 1, by omega⟩
+    simp only [belowList, List.mem_cons, List.mem_flatMap, List.mem_filter] at h ⊢
+    rcases h with rfl | ⟨o, ho, hin⟩
+    · exact Or.inl rfl
+    · exact Or.inr ⟨o, ho, ih g _ x (by omega) hin⟩
+
+theorem denoteList_mono (fs : FS) (c : WalkCfg) (full : Bool) (f f' : Nat) (hle : f ≤ f') :
+    ∀ (parts : List GPart) (d : Dir) (v : Y), v ∈ denoteList fs c full f parts d → v ∈ denoteList fs c full f' parts d := by
+  intro parts d
+  induction parts, d using denoteList.induct with
+  | case1 d => intro v h; simp [denoteList] at h
+  | case2 p d hs =>
+    intro v h
+    simp only [denoteList, hs, if_true, List.mem_append, List.mem_flatMap] at h ⊢
+    rcases h with h | ⟨d', hd', hv⟩
+    · exact Or.inl h
+    · exact Or.inr ⟨d', belowList_mono fs c _ f f' d d' hle hd', hv⟩
+  | case3 p d hs =>
+    intro v h
+    have hs' : p.isStar = false := by simpa using hs
+    simpa only [denoteList, hs', Bool.false_eq_true, if_false] using h
+  | case4 p q d hs =>
+    intro v h
+    simp only [denoteList, hs, if_true, List.mem_flatMap] at h ⊢
+    obtain ⟨d', hd', hv⟩ := h
+    exact ⟨d', belowList_mono fs c _ f f' d d' hle hd', hv⟩
+  | case5 p q d hs ih =>
+    intro v h
+    have hs' : p.isStar = false := by simpa using hs
+    simp only [denoteList, hs', Bool.false_eq_true, if_false, List.mem_flatMap] at h ⊢
+    obtain ⟨x, hx, hv⟩ := h
+    exact ⟨x, hx, by simpa [denoteList] using ih x v (by simpa [denoteList] using hv)⟩
+  | case6 p q r rest d hs ih =>
+    intro v h
+    simp only [denoteList, hs, if_true, List.mem_flatMap] at h ⊢
+    obtain ⟨d', hd', x, hx, hv⟩ := h
+    exact ⟨d', belowList_mono fs c _ f f' d d' hle hd', x, hx, ih x v hv⟩
+  | case7 p q r rest d hs ih =>
+    intro v h
+    have hs' : p.isStar = false := by simpa using hs
+    simp only [denoteList, hs', Bool.false_eq_true, if_false, List.mem_flatMap] at h ⊢
+    obtain ⟨x, hx, hv⟩ := h
+    exact ⟨x, hx, ih x v hv⟩
+
+theorem lastSeg_of {fs : FS} {c : WalkCfg} {p : GPart} {d : Dir} {o : Offer} (ho : o ∈ offered fs d)
+    (hseg : segOK c.caseSensitive p.pat o.name = true) (hd : p.dirOnly = true → o.isDir = true) :
+    o.toY d ∈ lastSeg fs c true p d := by
+  simp only [lastSeg, List.mem_map, List.mem_filter, segOKq_true, Bool.and_eq_true, Bool.or_eq_true, Bool.not_eq_true']
+  refine ⟨o, ⟨ho, hseg, ?_⟩, rfl⟩
+  cases hp : p.dirOnly with
+  | false => exact Or.inl rfl
+  | true => exact Or.inr (hd hp)
+
+theorem innerSeg_of {fs : FS} {c : WalkCfg} {p : GPart} {d : Dir} {o : Offer} (ho : o ∈ offered fs d)
+    (hseg : segOK c.caseSensitive p.pat o.name = true) (hd : o.isDir = true) :
+    (⟨pjoin d.path o.name, o.loc⟩ : Dir) ∈ innerSeg fs c true p d := by
+  simp only [innerSeg, List.mem_map, List.mem_filter, segOKq_true, Bool.and_eq_true]
+  exact ⟨o, ⟨ho, hseg, hd⟩, rfl⟩
+
+/-- **the executable specification is complete for the inductive one**: every denoted path is
+    enumerated once the `**` depth bound is large enough -/
+theorem denoteList_complete (fs : FS) (c : WalkCfg) {parts : List GPart} {d : Dir} {v : Y}
+    (h : Denotes fs c parts d v) : ∃ fuel, v ∈ denoteList fs c true fuel parts d := by
+  induction h with
+  | @last p d o hs ho hseg hd =>
+    refine ⟨0, ?_⟩
+    simp only [denoteList, hs, Bool.false_eq_true, if_false]
+    exact lastSeg_of ho hseg hd
+  | @inner p q rest d o v hs ho hseg hd _ ih =>
+    obtain ⟨f, hf⟩ := ih
+    refine ⟨f, ?_⟩
+    cases rest with
+    | nil =>
+      simp only [denoteList, hs, Bool.false_eq_true, if_false, List.mem_flatMap]
+      exact ⟨_, innerSeg_of ho hseg hd, hf⟩
+    | cons r rest' =>
+      simp only [denoteList, hs, Bool.false_eq_true, if_false, List.mem_flatMap]
+      exact ⟨_, innerSeg_of ho hseg hd, hf⟩
+  | @starSelf p d hs hne =>
+    refine ⟨0, ?_⟩
+    simp only [denoteList, hs, if_true, List.mem_append]
+    left; simp [hne]
+  | @starAny p d d' o hs hb ho hh hd =>
+    obtain ⟨n, hn⟩ := belowList_complete fs c _ hb
+    refine ⟨n, ?_⟩
+    simp only [denoteList, hs, if_true, List.mem_append, List.mem_flatMap, List.mem_map, List.mem_filter]
+    right
+    refine ⟨d', hn, o, ⟨ho, ?_⟩, rfl⟩
+    simp only [Bool.and_eq_true, Bool.not_eq_true', Bool.or_eq_true]
+    refine ⟨hh, ?_⟩
+    cases hp : p.dirOnly with
+    | false => exact Or.inl rfl
+    | true => exact Or.inr (hd hp)
+  | @starLast p q d d' o hs hb ho hseg hd =>
+    obtain ⟨n, hn⟩ := belowList_complete fs c _ hb
+    refine ⟨n, ?_⟩
+    simp only [denoteList, hs, if_true, List.mem_flatMap]
+    exact ⟨d', hn, lastSeg_of ho hseg hd⟩
+  | @starInner p q r rest d d' o v hs hb ho hseg hd _ ih =>
+    obtain ⟨n, hn⟩ := belowList_complete fs c _ hb
+    obtain ⟨f, hf⟩ := ih
+    refine ⟨max n f, ?_⟩
+    simp only [denoteList, hs, if_true, List.mem_flatMap]
+    exact ⟨d', belowList_mono fs c _ n _ d d' (Nat.le_max_left _ _) hn, _, innerSeg_of ho hseg hd,
+      denoteList_mono fs c true f _ (Nat.le_max_right _ _) _ _ v hf⟩
+
+/-- **executable = declarative** for the part-list specification -/
+theorem denoteList_iff (fs : FS) (c : WalkCfg) (parts : List GPart) (d : Dir) (v : Y) :
+    (∃ fuel, v ∈ denoteList fs c true fuel parts d) ↔ Denotes fs c parts d v :=
+  ⟨fun ⟨f, h⟩ => denoteList_sound fs c f parts d v h, denoteList_complete fs c⟩
+
+/-- **executable = declarative** for whole patterns -/
+theorem denoteTop_iff (fs : FS) (c : WalkCfg) (parts : List GPart) (v : Y) :
+    (∃ fuel, v ∈ denoteTop fs c true fuel parts) ↔ DenotesTop fs c parts v := by
+  cases parts with
+  | nil =>
+    constructor
+    · rintro ⟨f, h⟩; simp [denoteTop] at h
+    · intro h; cases h
+  | cons p rest =>
+    by_cases hm : p.isMagic = true
+    · simp only [denoteTop, hm, if_true]
+      rw [denoteList_iff]
+      constructor
+      · intro h; exact DenotesTop.magic hm h
+      · intro h
+        cases h with
+        | magic _ h => exact h
+        | writtenOnly hm' _ => rw [hm] at hm'; cases hm'
+        | writtenThen hm' _ _ => rw [hm] at hm'; cases hm'
+        | nameOnly hm' _ _ _ _ _ => rw [hm] at hm'; cases hm'
+        | nameThen hm' _ _ _ _ _ _ => rw [hm] at hm'; cases hm'
+    · have hm' : p.isMagic = false := by simpa using hm
+      by_cases ha : asWritten p.pat.text = true
+      · cases rest with
+        | nil =>
+          simp only [denoteTop, hm', Bool.false_eq_true, if_false, ha, if_true]
+          constructor
+          · rintro ⟨_, h⟩; simp at h; subst h; exact DenotesTop.writtenOnly hm' ha
+          · intro h
+            cases h with
+            | magic hmm _ => rw [hm'] at hmm; cases hmm
+            | writtenOnly _ _ => exact ⟨0, by simp⟩
+            | nameOnly _ ha' _ _ _ _ => rw [ha] at ha'; cases ha'
+        | cons q r =>
+          simp only [denoteTop, hm', Bool.false_eq_true, if_false, ha, if_true]
+          rw [denoteList_iff]
+          constructor
+          · intro h; exact DenotesTop.writtenThen hm' ha h
+          · intro h
+            cases h with
+            | magic hmm _ => rw [hm'] at hmm; cases hmm
+            | writtenThen _ _ h => exact h
+            | nameThen _ ha' _ _ _ _ _ => rw [ha] at ha'; cases ha'
+      · have ha' : asWritten p.pat.text = false := by simpa using ha
+        by_cases hte : p.pat.text = []
+        · constructor
+          · rintro ⟨f, h⟩
+            have hne : asWritten ([] : List Char) = false := by decide
+            simp [denoteTop, hm', hte, hne] at h
+          · intro h
+            cases h with
+            | magic hmm _ => rw [hm'] at hmm; cases hmm
+            | writtenOnly _ hx => rw [ha'] at hx; cases hx
+            | writtenThen _ hx _ => rw [ha'] at hx; cases hx
+            | nameOnly _ _ hne _ _ _ => exact absurd hte hne
+            | nameThen _ _ hne _ _ _ _ => exact absurd hte hne
+        · have hte' : p.pat.text.isEmpty = false := by
+            cases h : p.pat.text with
+            | nil => exact absurd h hte
+            | cons _ _ => rfl
+          cases rest with
+          | nil =>
+            simp only [denoteTop, hm', Bool.false_eq_true, if_false, ha', hte', List.mem_map, List.mem_filter,
+              segOKq_true, Bool.or_eq_true, Bool.not_eq_true']
+            constructor
+            · rintro ⟨_, o, ⟨⟨ho, hseg⟩, hd⟩, rfl⟩
+              refine DenotesTop.nameOnly hm' ha' hte ho hseg ?_
+              intro hp
+              rcases hd with hd | hd
+              · rw [hp] at hd; cases hd
+              · exact hd
+            · intro h
+              cases h with
+              | magic hmm _ => rw [hm'] at hmm; cases hmm
+              | writtenOnly _ hx => rw [ha'] at hx; cases hx
+              | @nameOnly _ o _ _ _ ho hseg hd =>
+                refine ⟨0, o, ⟨⟨ho, hseg⟩, ?_⟩, rfl⟩
+                cases hp : p.dirOnly with
+                | false => exact Or.inl rfl
+                | true => exact Or.inr (hd hp)
+          | cons q r =>
+            simp only [denoteTop, hm', Bool.false_eq_true, if_false, ha', hte', List.mem_flatMap, List.mem_filter,
+              segOKq_true]
+            constructor
+            · rintro ⟨f, o, ⟨⟨ho, hseg⟩, hd⟩, hv⟩
+              exact DenotesTop.nameThen hm' ha' hte ho hseg hd (denoteList_sound fs c f _ _ v hv)
+            · intro h
+              cases h with
+              | magic hmm _ => rw [hm'] at hmm; cases hmm
+              | writtenThen _ hx _ => rw [ha'] at hx; cases hx
+              | @nameThen _ _ _ o _ _ _ _ ho hseg hd hrest =>
+                obtain ⟨f, hf⟩ := denoteList_complete fs c hrest
+                exact ⟨f, o, ⟨⟨ho, hseg⟩, hd⟩, hf⟩
+
 end WcModel
